@@ -595,4 +595,415 @@ def reflectValueOf_map_decode : List (String × String) := [
   ("mapDecodeSlice", "mapVal")
 ]
 
+/-! ### round 6: the remaining Deserializer primitives, the element validators of `ArrayRules`, the entry points and the small
+helpers of the JSON decoder, `SerializableOrderedMap.Decode` -/
+
+def body_Deserializer_ReadBool : List String := [
+  "if d.err!=nil {",
+  "return d",
+  "}",
+  "if len(d.src[d.offset:])==0 {",
+  "d.err=ERR",
+  "return d",
+  "}",
+  "switch d.src[d.offset:d.offset+1][0] {",
+  "case 0:",
+  "*dest=false",
+  "case 1:",
+  "*dest=true",
+  "default:",
+  "d.err=ERR",
+  "return d",
+  "}",
+  "d.offset+=OneByte",
+  "return d"
+]
+
+def body_Deserializer_ReadByte : List String := [
+  "if d.err!=nil {",
+  "return d",
+  "}",
+  "if len(d.src[d.offset:])==0 {",
+  "d.err=ERR",
+  "return d",
+  "}",
+  "*dest=d.src[d.offset:d.offset+1][0]",
+  "d.offset+=OneByte",
+  "return d"
+]
+
+def body_Deserializer_ReadUint256 : List String := [
+  "if d.err!=nil {",
+  "return d",
+  "}",
+  "if len(d.src[d.offset:])<UInt256ByteSize {",
+  "d.err=ERR",
+  "return d",
+  "}",
+  "source:=make([]byte,UInt256ByteSize)",
+  "copy(source,d.src[d.offset:d.offset+UInt256ByteSize])",
+  "d.offset+=UInt256ByteSize",
+  "for i,j:=0,len(source)-1;i<j;i,j=i+1,j-1 {",
+  "source[i],source[j]=source[j],source[i]",
+  "}",
+  "*dest=new(big.Int).SetBytes(source)",
+  "return d"
+]
+
+def body_Deserializer_ReadNum : List String := [
+  "if d.err!=nil {",
+  "return d",
+  "}",
+  "l:=len(d.src[d.offset:])",
+  "dataSize:=numSize(dest)",
+  "if l<dataSize {",
+  "d.err=ERR",
+  "return d",
+  "}",
+  "l=dataSize",
+  "data:=d.src[d.offset:d.offset+l]",
+  "switchx:=dest.(type){case*int8:*x=int8(data[0])case*uint8:*x=data[0]case*int16:*x=int16(binary.LittleEndian.Uint16(data))case*uint16:*x=binary.LittleEndian.Uint16(data)case*int32:*x=int32(binary.LittleEndian.Uint32(data))case*uint32:*x=binary.LittleEndian.Uint32(data)case*int64:*x=int64(binary.LittleEndian.Uint64(data))case*uint64:*x=binary.LittleEndian.Uint64(data)case*float32:*x=math.Float32frombits(binary.LittleEndian.Uint32(data))case*float64:*x=math.Float64frombits(binary.LittleEndian.Uint64(data))default:panic(fmt.Sprintf(\"unsupportedReadNumtype%T\",dest))}",
+  "d.offset+=l",
+  "return d"
+]
+
+def body_Deserializer_ReadBytesInPlace : List String := [
+  "if d.err!=nil {",
+  "return d",
+  "}",
+  "numBytes:=len(slice)",
+  "if len(d.src[d.offset:])<numBytes {",
+  "d.err=ERR",
+  "return d",
+  "}",
+  "copy(slice,d.src[d.offset:d.offset+numBytes])",
+  "d.offset+=numBytes",
+  "return d"
+]
+
+def body_Deserializer_ReadObject : List String := [
+  "deserializer,_:=d.readObject(target,deSeriMode,deSeriCtx,typeDen,serSel,errProducer)",
+  "return deserializer"
+]
+
+def body_Deserializer_readObject : List String := [
+  "if d.err!=nil {",
+  "return d,0",
+  "}",
+  "ty,err:=d.GetObjectType(typeDen)",
+  "if err!=nil {",
+  "d.err=ERR",
+  "return d,0",
+  "}",
+  "seri,err:=serSel(ty)",
+  "if err!=nil {",
+  "d.err=ERR",
+  "return d,0",
+  "}",
+  "bytesConsumed,err:=seri.Deserialize(d.src[d.offset:],deSeriMode,deSeriCtx)",
+  "if err!=nil {",
+  "d.err=ERR",
+  "return d,0",
+  "}",
+  "d.offset+=bytesConsumed",
+  "d.readSerializableIntoTarget(target,seri)",
+  "return d,ty"
+]
+
+def body_Deserializer_ReadSliceOfObjects : List String := [
+  "if d.err!=nil {",
+  "return d",
+  "}",
+  "varserisSerializables",
+  "varseenTypesTypePrefixes",
+  "if deSeriMode.HasMode(DeSeriModePerformValidation) {",
+  "seenTypes=make(TypePrefixes,0)",
+  "}",
+  "deserializeItem:=func(b[]byte)(bytesReadint,errerror){varseriSerializablesubDeseri:=NewDeserializer(b)_,ty:=subDeseri.readObject(func(readSeriSerializable){seri=readSeri},deSeriMode,deSeriCtx,typeDen,arrayRules.Guards.ReadGuard,func(errerror)error{returnERR})bytesRead,err=subDeseri.Done()iferr!=nil{return0,err}ifdeSeriMode.HasMode(DeSeriModePerformValidation){seenTypes[ty]=struct{}{}ifarrayRules.Guards.PostReadGuard!=nil{iferr:=arrayRules.Guards.PostReadGuard(seri);err!=nil{return0,err}}}seris=append(seris,seri)returnbytesRead,nil}",
+  "d.ReadSequenceOfObjects(deserializeItem,deSeriMode,lenType,arrayRules,errProducer)",
+  "if d.err!=nil {",
+  "return d",
+  "}",
+  "if deSeriMode.HasMode(DeSeriModePerformValidation) {",
+  "if !arrayRules.MustOccur.Subset(seenTypes) {",
+  "d.err=ERR",
+  "return d",
+  "}",
+  "}",
+  "if len(seris)==0 {",
+  "return d",
+  "}",
+  "d.readSerializablesIntoTarget(target,seris)",
+  "return d"
+]
+
+def body_Deserializer_CheckTypePrefix : List String := [
+  "if d.err!=nil {",
+  "return d",
+  "}",
+  "vartoSkipint",
+  "switch prefixType {",
+  "case TypeDenotationUint32:",
+  "err:=CheckType(d.src[d.offset:],prefix)",
+  "if err!=nil {",
+  "d.err=ERR",
+  "return d",
+  "}",
+  "toSkip=UInt32ByteSize",
+  "case TypeDenotationByte:",
+  "err:=CheckTypeByte(d.src[d.offset:],byte(prefix))",
+  "if err!=nil {",
+  "d.err=ERR",
+  "return d",
+  "}",
+  "toSkip=OneByte",
+  "default:",
+  "panic",
+  "}",
+  "return d.Skip(toSkip,func(errerror)error{returnerr})"
+]
+
+def body_Deserializer_ConsumedAll : List String := [
+  "if d.err!=nil {",
+  "return d",
+  "}",
+  "if len(d.src)!=d.offset {",
+  "d.err=ERR",
+  "}",
+  "return d"
+]
+
+def body_Deserializer_AbortIf : List String := [
+  "if d.err!=nil {",
+  "return d",
+  "}",
+  "err:=ERR",
+  "if err!=nil {",
+  "d.err=err",
+  "}",
+  "return d"
+]
+
+def body_Deserializer_WithValidation : List String := [
+  "if d.err!=nil {",
+  "return d",
+  "}",
+  "if !deSeriMode.HasMode(DeSeriModePerformValidation) {",
+  "return d",
+  "}",
+  "err:=ERR",
+  "if err!=nil {",
+  "d.err=err",
+  "return d",
+  "}",
+  "return d"
+]
+
+def body_Deserializer_Do : List String := [
+  "if d.err!=nil {",
+  "return d",
+  "}",
+  "f()",
+  "return d"
+]
+
+def body_ArrayRules_CheckBounds : List String := [
+  "if ar.Min!=0&&count<ar.Min {",
+  "return ERR",
+  "}",
+  "if ar.Max!=0&&count>ar.Max {",
+  "return ERR",
+  "}",
+  "return nil"
+]
+
+def body_ArrayRules_ElementUniqueValidator : List String := [
+  "set:=map[string]int{}",
+  "return func(indexint,next[]byte)error{k:=string(next)ifj,has:=set[k];has{returnERR}set[k]=indexreturnnil}"
+]
+
+def body_ArrayRules_LexicalOrderValidator : List String := [
+  "varprev[]byte",
+  "varprevIndexint",
+  "return func(indexint,next[]byte)error{switch{caseprev==nil:prev=nextprevIndex=indexcasebytes.Compare(prev,next)>0:returnERRdefault:prev=nextprevIndex=index}returnnil}"
+]
+
+def body_ArrayRules_LexicalOrderWithoutDupsValidator : List String := [
+  "varprev[]byte",
+  "varprevIndexint",
+  "varhasPrevbool",
+  "return func(indexint,next[]byte)error{if!hasPrev{hasPrev=trueprevIndex=indexprev=nextreturnnil}switchbytes.Compare(prev,next){case1:returnERRcase0:returnERR}prevIndex=indexprev=nextreturnnil}"
+]
+
+def body_ArrayRules_AtMostOneOfEachTypeValidator : List String := [
+  "seen:=map[uint32]int{}",
+  "return func(indexint,next[]byte)error{varkeyuint32switchtypeDenotation{caseTypeDenotationUint32:iflen(next)<UInt32ByteSize{returnERR}key=binary.LittleEndian.Uint32(next)caseTypeDenotationByte:iflen(next)<OneByte{returnERR}key=uint32(next[0])default:panic(ERR)}prevIndex,has:=seen[key]ifhas{returnERR}seen[key]=indexreturnnil}"
+]
+
+def body_ArrayRules_ElementValidationFunc : List String := [
+  "vararrayElementValidatorElementValidationFunc",
+  "wrap:=func(fElementValidationFunc,f2ElementValidationFunc)ElementValidationFunc{returnfunc(indexint,next[]byte)error{iff!=nil{iferr:=f(index,next);err!=nil{returnerr}}returnf2(index,next)}}",
+  "for i:=byte(1);i!=0;i<<=1 {",
+  "switch ArrayValidationMode(byte(ar.ValidationMode)&i) {",
+  "case ArrayValidationModeNone:",
+  "case ArrayValidationModeNoDuplicates:",
+  "if ar.ValidationMode.HasMode(ArrayValidationModeLexicalOrdering) {",
+  "continue",
+  "}",
+  "arrayElementValidator=wrap(arrayElementValidator,ar.ElementUniqueValidator())",
+  "case ArrayValidationModeLexicalOrdering:",
+  "if ar.ValidationMode.HasMode(ArrayValidationModeNoDuplicates) {",
+  "arrayElementValidator=wrap(arrayElementValidator,ar.LexicalOrderWithoutDupsValidator())",
+  "continue",
+  "}",
+  "arrayElementValidator=wrap(arrayElementValidator,ar.LexicalOrderValidator())",
+  "case ArrayValidationModeAtMostOneOfEachTypeByte:",
+  "arrayElementValidator=wrap(arrayElementValidator,ar.AtMostOneOfEachTypeValidator(TypeDenotationByte))",
+  "case ArrayValidationModeAtMostOneOfEachTypeUint32:",
+  "arrayElementValidator=wrap(arrayElementValidator,ar.AtMostOneOfEachTypeValidator(TypeDenotationUint32))",
+  "}",
+  "}",
+  "return arrayElementValidator"
+]
+
+def body_API_JSONDecode : List String := [
+  "m:=map[string]any{}",
+  "err:=json.Unmarshal(data,&m)",
+  "if err!=nil {",
+  "return err",
+  "}",
+  "return api.MapDecode(ctx,m,obj,opts...)"
+]
+
+def body_API_MapDecode : List String := [
+  "value:=reflect.ValueOf(obj)",
+  "err:=checkDecodeDestination(obj,value)",
+  "if err!=nil {",
+  "return err",
+  "}",
+  "opt:=&options{}",
+  "for _,o range opts {",
+  "o(opt)",
+  "}",
+  "return api.mapDecode(ctx,m,value,opt.ts,opt)"
+]
+
+def body_API_mapDecode : List String := [
+  "vardeserializableDeserializableJSON",
+  "_,ok:=value.Interface().(DeserializableJSON)",
+  "if ok {",
+  "if value.Kind()==reflect.Ptr&&value.IsNil() {",
+  "value.Set(reflect.New(value.Type().Elem()))",
+  "}",
+  "deserializable=value.Interface().(DeserializableJSON)",
+  "} else {",
+  "if value.CanAddr() {",
+  "addrDeserializable,ok:=value.Addr().Interface().(DeserializableJSON)",
+  "if ok {",
+  "deserializable=addrDeserializable",
+  "}",
+  "}",
+  "}",
+  "if deserializable!=nil {",
+  "err=deserializable.DecodeJSON(mapVal)",
+  "if err!=nil {",
+  "return ERR",
+  "}",
+  "contextAwareDeserializable,ok:=deserializable.(ContextAwareDeserializable)",
+  "if ok {",
+  "contextAwareDeserializable.SetDeserializationContext(ctx)",
+  "}",
+  "} else {",
+  "err=api.mapDecodeBasedOnType(ctx,mapVal,value,value.Type(),ts,opts)",
+  "if err!=nil {",
+  "return ERR",
+  "}",
+  "}",
+  "if opts.validation {",
+  "err:=api.callSyntacticValidator(ctx,value,value.Type())",
+  "if err!=nil {",
+  "return ERR",
+  "}",
+  "}",
+  "return nil"
+]
+
+def body_mapDecodeBytes : List String := [
+  "if ts.ObjectType()!=nil {",
+  "fieldKey:=keyDefaultSliceArray",
+  "if ts.fieldKey!=nil {",
+  "fieldKey=*ts.fieldKey",
+  "}",
+  "m,ok:=mapVal.(map[string]any)",
+  "if !ok {",
+  "return nil,ERR",
+  "}",
+  "mapVal=m[fieldKey]",
+  "}",
+  "hexStr,ok:=mapVal.(string)",
+  "if !ok {",
+  "return nil,ERR",
+  "}",
+  "return DecodeHex(hexStr)"
+]
+
+def body_API_mapDecodeFloat : List String := [
+  "addrValue:=value.Addr()",
+  "bitSize,_,addrTypeToConvert:=getNumberTypeToConvert(valueType.Kind())",
+  "addrValue=addrValue.Convert(addrTypeToConvert)",
+  "str,ok:=mapVal.(string)",
+  "if !ok {",
+  "return ERR",
+  "}",
+  "f,err:=strconv.ParseFloat(str,bitSize)",
+  "if err!=nil {",
+  "return err",
+  "}",
+  "addrValue.Elem().SetFloat(f)",
+  "return nil"
+]
+
+def body_API_mapDecodeNum : List String := [
+  "addrValue:=value.Addr()",
+  "_,_,addrTypeToConvert:=getNumberTypeToConvert(valueType.Kind())",
+  "addrValue=addrValue.Convert(addrTypeToConvert)",
+  "num,err:=parser()",
+  "if err!=nil {",
+  "return err",
+  "}",
+  "addrValue.Elem().Set(reflect.ValueOf(num))",
+  "return nil"
+]
+
+def body_SerializableOrderedMap_Decode : List String := [
+  "varmapSizeuint32",
+  "bytesReadSize,err:=api.Decode(context.Background(),b[bytesRead:],&mapSize)",
+  "if err!=nil {",
+  "return 0,err",
+  "}",
+  "bytesRead+=bytesReadSize",
+  "decodedKeys:=make(map[K]struct{})",
+  "for  range mapSize {",
+  "varkeyK",
+  "bytesReadKey,err:=api.Decode(context.Background(),b[bytesRead:],&key)",
+  "if err!=nil {",
+  "return 0,err",
+  "}",
+  "bytesRead+=bytesReadKey",
+  "_,duplicate:=decodedKeys[key]",
+  "if duplicate {",
+  "return 0,ERR",
+  "}",
+  "decodedKeys[key]=struct{}{}",
+  "varvalueV",
+  "bytesReadValue,err:=api.Decode(context.Background(),b[bytesRead:],&value)",
+  "if err!=nil {",
+  "return 0,err",
+  "}",
+  "bytesRead+=bytesReadValue",
+  "o.Set(key,value)",
+  "}",
+  "return bytesRead,nil"
+]
+
 end Hive.Spec.DeserFacts
